@@ -1,6 +1,8 @@
 """C18 - LCD animations never block, stay inside their row, finish unless looping, are rate-limited.
 
-Host half : the real Reduino.Displays.LCD object (animate + tick(now)) against coq/Host/LCDAnim.v.
+Host half : the real Reduino.Displays.LCD object (animate + tick(now)) against coq/Host/LCDAnim.v, and whole call histories
+(animate / tick / line / clear / begin in any order: animations registered, finished, re-registered with the same style and
+row) against the registry state machine coq/Host/LCDReg.v, with an oracle that follows every started animation by identity.
 Device half: generated scripts with lcd.animate(...) before `while True:`, inside it and inside functions, transpiled by the real
 parse+emit, compiled against the mock core and run with a scripted millis() per pass, against
 coq/Device/DLCDAnim.v.  Independently of the models a property oracle is evaluated on every real
@@ -23,7 +25,7 @@ from harness import fw
 META = {
     "id": "C18",
     "technique": "Coq proof (induction over tick histories; per-style variants and invariants; finite obligations over tables regenerated from the source) + extracted-model correspondence with the real LCD object and with the emitted C++ animation helpers run under the mock core + trace oracle",
-    "level_text": "Theorems C18_* (coq/Props/C18.v) are proved for all texts, widths >= 1, speeds, loop flags and all tick-time sequences about Gallina transcriptions of LCD.animate/LCD.tick and of the four __redu_lcd_start_*/__redu_lcd_tick_* template pairs plus the tick-injection rule - the device rate limiter also in the W-bit unsigned arithmetic of the emitted C++ for every width W (C18_width_model_agrees_device, C18_rate_limit_device_width: every clock value below 2^W; C18_rollover_trace_device_partial: across the roll-over) -, and (C18_tables_complete) about the style/helper tables and helper texts re-read from emitter.py, parser.py and LCD.py on every run; the models are run side by side with the real host object (buffer assignments and every _AnimationState field after each tick) and with the compiled firmware (cell writes and DDRAM dump per loop() pass).",
+    "level_text": "Theorems C18_* (coq/Props/C18.v) are proved for all texts, widths >= 1, speeds, loop flags and all tick-time sequences about Gallina transcriptions of LCD.animate/LCD.tick (and, C18_host_registry_* / C18_host_registered_entry_run, by induction over whole call histories animate/tick/line/clear/begin of the host class with its count-keyed registry dict: no animate call ever replaces a registered animation, every registered animation is advanced by every tick under its own key until begin()) and of the four __redu_lcd_start_*/__redu_lcd_tick_* template pairs plus the tick-injection rule - the device rate limiter also in the W-bit unsigned arithmetic of the emitted C++ for every width W (C18_width_model_agrees_device, C18_rate_limit_device_width: every clock value below 2^W; C18_rollover_trace_device_partial: across the roll-over) -, and (C18_tables_complete) about the style/helper tables and helper texts re-read from emitter.py, parser.py and LCD.py on every run; the models are run side by side with the real host object (buffer assignments and every _AnimationState field after each tick) and with the compiled firmware (cell writes and DDRAM dump per loop() pass).",
     "level_note": "Trusted: Coq kernel, extraction, OCaml driver, the mock LiquidCrystal/LiquidCrystal_I2C (cursor-addressed DDRAM) and its virtual millis(), g++. The theorems are about the models; the correspondence bounds their distance from LCD.py / emitter.py. Tick injection is proved without a guard on the place of the call site (C18_tick_injected, C18_loop_site_ticked, C18_function_site_ticked): before the main loop, inside `while True:` and inside function bodies, at any depth inside if/elif/else, while, for and try/except bodies (Device/DLCDInject.v: the parser's name collection and the emitter's registration pass as two recursive walks over statement trees, C18_nested_*); the two former refutations (animate inside `while True:` never ticked; animate inside a def undeclared) were repaired in Reduino and are kept as kind=fixed entries whose witnesses are replayed first on every run (a witness that fails again is a VIOLATION).",
     "design_ref": "DESIGN.md section 4 C18 (and C05 for tick injection)",
 }
@@ -538,7 +540,7 @@ def run_host(ctx, stats):
 
 def hist_model_case(c):
     ops = []
-    for op in c["hist"]:
+    for op in ([] if c.get("oracle_only") else c["hist"]):
         if op[0] == "animate":
             ops.append([0, CODE.get(str(op[1]).lower(), 9), int(op[2]), op[3], int(op[4]), bool(op[5])])
         elif op[0] == "tick":
@@ -676,6 +678,9 @@ def hist_oracle(ctx, c, r, stats):
                              key="host-registry-replaced")
                     return
                 a["alive"] = False           # a finished animation may be forgotten
+            if a["alive"] and a["loop"] and not cur[j][1][7]:
+                ctx.fail(f"a looping animation became inactive (across call #{k} {op[0]})", hist_cut(c, k), "active", cur[j][1], key="host-loop-ended")
+                return
         # (2) per-animation relations at a tick
         if op[0] == "tick":
             now = op[1]
@@ -713,7 +718,7 @@ def hist_oracle(ctx, c, r, stats):
         else:
             # no other call advances or alters a running animation
             for j, a in enumerate(info):
-                if a["alive"] and j < len(prev_tracked) and prev_tracked[j][1] != cur[j][1] and op[0] in ("line", "clear"):
+                if a["alive"] and j < len(prev_tracked) and prev_tracked[j][1] != cur[j][1] and op[0] not in ("animate", "begin"):
                     ctx.fail(f"call #{k} {op[0]} changed the state of a running animation", hist_cut(c, k), prev_tracked[j][1], cur[j][1], key="host-foreign-step")
                     return
         prev_tracked = cur
@@ -762,6 +767,10 @@ def gen_hist_cases(ctx):
             out += frontier
         return out
     words = all_words("abct", 5) if not thorough else sorted(set(all_words("abct", 6) + all_words("abcdt", 5)))
+    if not thorough:
+        # quick: every word up to 4 calls, and the 5-call words in which the quick one-shot `a` is over (a tick after it) before
+        # a later animate call - the finished-then-registered shapes
+        words = [w for w in words if len(w) <= 4 or re.search(r"a.*t.*[abc]", w)]
     for w in words:
         if w.count("t") == len(w) or len(w) < 3 or w.endswith("t"):
             continue                       # at least one animate, ends with an animate (the tail follows)
@@ -843,7 +852,49 @@ def gen_hist_cases(ctx):
             else:
                 hist.append(["animate", "wave", 0, "x", 0, True])
         cases.append({"cols": cols, "rows": rows, "i2c": j % 3 == 0, "hist": hist, "tag": "hist:random"})
+        if j % 3 == 1:
+            # the same history with the class's other public calls in between (outside the registry model's vocabulary: oracle
+            # only) - none of them may unregister, stop or advance a running animation
+            others = [["write", 1, rng.randrange(rows), "Q"], ["message", "top", "bottom"], ["progress", rng.randrange(rows), 3, 10],
+                      ["display", False], ["display", True], ["backlight", False], ["brightness", 7], ["glyph", 1, [0, 1, 2, 3, 4, 5, 6, 7]],
+                      ["clear"], ["line", 0, "hello"]]
+            h2 = []
+            for op in hist:
+                h2.append(op)
+                if rng.random() < 0.25:
+                    h2.append(list(rng.choice(others)))
+            cases.append({"cols": cols, "rows": rows, "i2c": j % 2 == 0, "hist": h2, "tag": "hist:random+other-calls", "oracle_only": True})
     return cases
+
+
+def hist_shrink(case, key, rounds=60):
+    """greedy one-call-at-a-time minimisation of a failing history: drop a call as long as the oracle still reports the same
+    class of failure on the real object (runs only after a failure was found; the reported case is the smallest reached)"""
+    best = None
+    cur = {k: v for k, v in case.items() if k != "cut_from"}
+    for _ in range(rounds):
+        n = len(cur["hist"])
+        cands = []
+        for i in range(n):
+            c2 = dict(cur)
+            c2["hist"] = cur["hist"][:i] + cur["hist"][i + 1:]
+            cands.append(c2)
+        cands = [c2 for c2 in cands if c2["hist"] and hist_in_guard(c2)]
+        if not cands:
+            break
+        rs = C.run_impl("c18_impl.py", {"cases": cands}, timeout=600)
+        hit = None
+        for c2, r2 in zip(cands, rs):
+            col = _Collector()
+            hist_oracle(col, c2, r2, {})
+            if col.fails and col.fails[0]["key"] == key:
+                hit = col.fails[0]
+                break
+        if hit is None:
+            break
+        best = hit
+        cur = {k: v for k, v in hit["case"].items() if k != "cut_from"}
+    return best
 
 
 def run_hist(ctx, stats):
@@ -851,11 +902,21 @@ def run_hist(ctx, stats):
     impl = C.run_impl("c18_impl.py", {"cases": cases}, timeout=1200)
     model = ctx.model([hist_model_case(c) for c in cases]) if ctx.exe else [None] * len(cases)
     nontrivial = set()
+    shrunk_keys = set()
     for c, r, m in zip(cases, impl, model):
-        if m is not None:
+        if m is not None and not c.get("oracle_only"):
             hist_compare(ctx, c, m, r)
         if hist_in_guard(c):
-            hist_oracle(ctx, c, r, stats)
+            col = _Collector()
+            hist_oracle(col, c, r, stats)
+            for f in col.fails:
+                if f["key"] not in shrunk_keys:
+                    shrunk_keys.add(f["key"])
+                    small = hist_shrink(f["case"], f["key"])
+                    if small is not None:
+                        small["case"]["shrunk_from_calls"] = len(f["case"]["hist"])
+                        f = small
+                ctx.fail(f["what"], f["case"], f["expected"], f["observed"], key=f["key"])
         else:
             stats["hist_outside_guard"] = stats.get("hist_outside_guard", 0) + 1
         n_anim, fin, same = hist_shape(c, r)
@@ -2015,7 +2076,7 @@ class _Collector:
         self.notes = []
 
     def fail(self, what, case, expected, observed, key=None):
-        self.fails.append({"what": what, "expected": expected, "observed": observed, "key": key})
+        self.fails.append({"what": what, "expected": expected, "observed": observed, "key": key, "case": case})
 
     def disagree(self, *a, **k):
         pass
@@ -2139,10 +2200,18 @@ def run(ctx: C.Ctx):
                 "the path placed before the main loop, inside it, or inside a function body (rotating; functions are called from setup, from the main loop, or never), trees with call sites before and inside the main loop, trees with one to three function bodies, and scripts without a main loop - all of them inside the guard (oracle on the emitted text + correspondence); handler headers rotate over `except:`, `except ValueError:`, `except Exception as e:`, `except Exception:`. "
                 "Host, several displays: one in nine grid cases and half of the multi cases run next to a second display created in the same process (same geometry/style/row/registry key in the grid), whose animations start before and after the main one's and which is ticked between the main ticks; "
                 "any change of one display across an operation on the other is a failure. "
-                "Non-trivial = at least one frame was drawn by a tick; distinct by (geometry, animations, schedule prefix).",
+                "Host registry histories (one display, calls in any order; model Host/LCDReg.v): (B) every word of up to 5 calls (thorough 6) over {one-shot blink row 0 (over after 1 step), looping scroll row 0, one-shot scroll row 0, "
+                "[thorough: looping blink row 1,] tick} that ends with an animate call, followed by 7 ticks, on a 2x2 display (quick: all words up to 4 calls and the 5-call words in which the quick one-shot is over before a later animate); "
+                "(A) structured finished-then-reregistered histories: one-shot (4 styles, on the looping one's row or the other) + looping (4 styles) + ticks until the one-shot is over + a third animate whose (style, row) is that of the looping one / "
+                "of the finished one / another style / another row, looping or not, + ticks beyond the third's end and a full period of the looping one, speeds 0 and 3, early ticks mixed in (quick: all same-as-looping, half of the others; thorough also cols 8); "
+                "(C) seeded random histories of 4..45 calls: animate drawn from 1..3 recurring (style, row) pairs (short texts so that one-shots finish inside the history, 6 % unknown styles, 6 % rows outside the display), ticks with gaps from "
+                "{0,1,p-1,p,p+1,2p,5p+3} starting at 0/6/999/2^32-5, line / clear / begin() in between; a third of them again with the class's other public calls (write, message, progress, display, backlight, brightness, glyph) interleaved (oracle only). "
+                "Oracle over a history: every animation a valid animate call started is followed by the identity of its _AnimationState object; while live (active, no begin() since) it must stay in lcd.animations across every call, "
+                "no call but tick may change it, every due tick advances it (or at least draws on its row), looping never inactive, steps speed_ms apart, one-shots stop within len+2*cols+2 steps; a failing history is minimised call by call before it is reported. "
+                "Non-trivial = at least one frame was drawn by a tick; distinct by (geometry, animations, schedule prefix); histories: an animate call was made after an earlier animation had finished and a later tick drew a frame.",
         "samples": [hcases[0], hcases[len(hcases) // 2], dindex[0][0] if dindex else None],
         "distribution": stats,
-        "guard": "host: cols, rows >= 1, tick times positive and non-decreasing; device: additionally 0 <= row < rows, text without control characters, quotes or backslashes (non-ASCII text = its UTF-8 bytes; speed_ms may be negative: cast to unsigned long), "
+        "guard": "host: cols, rows >= 1, tick times positive and non-decreasing (histories: the same over the tick calls of the history; animations reset by begin() are no longer judged); device: additionally 0 <= row < rows, text without control characters, quotes or backslashes (non-ASCII text = its UTF-8 bytes; speed_ms may be negative: cast to unsigned long), "
                  "1 <= cols <= 40; the place of the lcd.animate call sites is not restricted any more (before the main loop, inside it, inside functions, at any block depth: the two findings that "
                  "excluded the main loop and defs are repaired, kind=fixed, and suppress nothing); a call site inside the main loop is generated under a run-once guard (an unguarded one restarts its animation in every pass - by design of animate); "
                  "sketches that are compiled use bare `except:` handlers only (a named exception class becomes catch (<Class> &), undeclared on any core: C06)",
@@ -2151,8 +2220,9 @@ def run(ctx: C.Ctx):
                        "across the roll-over of millis() the model is exact (C18_rollover_trace_device_partial) but the property's oracle is not evaluated there (register values are not non-decreasing: outside the quantifier); "
                        "a step taken in the millisecond in which millis() reads 0 is followed by an immediate step (C18_rollover_zero_reading_refuted: outside the quantifier, remark only)",
                        "device: DDRAM addressing beyond 40 columns / 4-row interleaving (shown unreachable by C18_frame_geometry_device)",
-                       "host: non-int now_ms / speed_ms, LCD.begin() during an animation"],
-        "trusted_base": C.COMMON_TRUSTED + ["harness/impl/c18_impl.py (real LCD object; buffer item assignments recorded by a list subclass; time.sleep replaced by a counter)",
+                       "host: non-int now_ms / speed_ms; what begin() does to running animations is modelled (registry cleared) and compared but not judged by the oracle (not the statement's subject); "
+                       "the registry key is modelled as the triple (style, row, count) its string is rendered from (rendered by the harness for the comparison with the real keys)"],
+        "trusted_base": C.COMMON_TRUSTED + ["harness/impl/c18_impl.py (real LCD object; buffer item assignments recorded by a list subclass; time.sleep replaced by a counter; histories: the state object a successful animate call added to lcd.animations is remembered by identity and looked up among lcd.animations.values() after every call)",
                                             "mock/LiquidCrystal.h + mock_core.cpp (cursor-addressed DDRAM, LW/LD events, scripted millis() incl. the clockbase offset that wraps modulo 2^64 like a real counter)", "g++ 12 -O0",
                                             "harness/fw.py, transpile_impl.py"],
     })
